@@ -2772,6 +2772,153 @@ def _forward_scratch(body, f, facts, top, i, scratch, tail_rest, member_of_this)
     return len(scratch)
 
 
+def sink_refined_stores(body, facts):
+    """N13a: `if (h == K) { A; x = K; } else { B; x = h; }` stores the same value on both edges - under h == K the constant K *is*
+    h - so the store is `x = h` after the If (h a local that A and B do not write, x a local they do not mention otherwise).
+    The test may be spelled any way that is true exactly for h == K (`!h`, `!(h != 0)`, swapped branches).  Returns the
+    number of Ifs rewritten."""
+    count = 0
+    for b in [x for x in walk(body) if x.get("k") == "Block"]:
+        sts = b.get("s", [])
+        i = 0
+        while i < len(sts):
+            st = sts[i]
+            i += 1
+            if not (isinstance(st, dict) and st.get("k") == "If" and st.get("else") is not None and st.get("condvar") is None):
+                continue
+            br = []
+            for key in ("then", "else"):
+                l_ = [x for x in ir.stmts(st[key]) if not (isinstance(x, dict) and x.get("k") == "Null")]
+                u = unwrap(l_[-1]) if l_ else None
+                if not (isinstance(u, dict) and u.get("k") == "Bin" and u.get("op") == "="):
+                    br = None
+                    break
+                lp = ir.unwrap_all_casts(u.get("lhs"))
+                if not (isinstance(lp, dict) and lp.get("k") == "Ref" and lp.get("d") == "local"):
+                    br = None
+                    break
+                br.append((l_, u, lp))
+            if not br or br[0][2].get("id") != br[1][2].get("id"):
+                continue
+            xid = br[0][2]["id"]
+            for ci, vi in ((0, 1), (1, 0)):
+                kc = ir.const_value(br[ci][1].get("rhs"))
+                hv = ir.unwrap_all_casts(br[vi][1].get("rhs"))
+                if kc is None or isinstance(kc, str) or not (isinstance(hv, dict) and hv.get("k") == "Ref" and hv.get("d") in ("local", "param")):
+                    continue
+                if hv.get("id") == xid and hv.get("d") == "local":
+                    continue
+                hkey = path(hv)[0]
+                f_ = ir.cond(st["cond"], None)
+                want = (ci == 0)            # the constant branch is `then`: the condition must be h == K
+                vals = [ir.eval_formula(f_, {hkey: kc}), ir.eval_formula(f_, {hkey: kc + 1}), ir.eval_formula(f_, {hkey: kc + 7})]
+                if vals != [want, not want, not want]:
+                    continue
+                if any(a_[0] == "nz" and (a_[1] if isinstance(a_[1], str) else ir.path_str(a_[1])) != hkey or
+                       a_[0] == "cmp" and hkey not in (a_[2], a_[3]) for a_ in ir.walk_formula(f_) if a_[0] in ("nz", "cmp")):
+                    continue
+                # neither branch writes h or mentions x before its final store
+                bad = False
+                for l_, u, lp in br:
+                    for x in l_[:-1]:
+                        for y in walk(x):
+                            if y.get("k") == "Ref" and y.get("d") == "local" and y.get("id") == xid:
+                                bad = True
+                            if y.get("k") == "Bin" and (y.get("op") or "").endswith("=") and y.get("op") not in ("==", "!=", "<=", ">=") and \
+                                    path(y.get("lhs")) == path(hv):
+                                bad = True
+                            if y.get("k") == "Un" and y.get("op") in ("pre++", "post++", "pre--", "post--", "&") and path(y.get("e")) == path(hv):
+                                bad = True
+                if bad:
+                    continue
+                store = br[vi][0][-1]
+                for key, (l_, u, lp) in zip(("then", "else"), br):
+                    st[key] = {"k": "Block", "l": st.get("l"), "s": l_[:-1]}
+                if not st["then"]["s"] and st["else"]["s"]:
+                    c0 = ir.unwrap_all_casts(st["cond"])
+                    st["cond"] = c0["e"] if isinstance(c0, dict) and c0.get("k") == "Un" and c0.get("op") == "!" else \
+                        {"k": "Un", "op": "!", "e": st["cond"], "t": "bool", "l": st.get("l")}
+                    st["then"], st["else"] = st["else"], None
+                elif not st["else"]["s"]:
+                    st["else"] = None
+                if st.get("else") is None:
+                    st.pop("else", None)
+                if not st["then"]["s"] and st.get("else") is None and is_pure(st["cond"], facts):
+                    sts[i - 1] = {"k": "Null"}
+                sts.insert(i, store)
+                count += 1
+                break
+    return count
+
+
+def coalesce_copies(body, facts):
+    """N13b: `T h = E; ...; x = h;` in one statement list, where x is a local of the same scalar type that nothing mentions
+    between the declaration and the copy and h is not mentioned after it, is `x = E; ...` with x in place of h: the two
+    variables never hold different values while both matter.  Returns the number of locals coalesced."""
+    count = 0
+    changed = True
+    while changed:
+        changed = False
+        uses = {}
+        for n in walk(body):
+            if n.get("k") == "Ref" and n.get("d") == "local":
+                uses[n.get("id")] = uses.get(n.get("id"), 0) + 1
+        for b in [x for x in walk(body) if x.get("k") == "Block"]:
+            sts = b.get("s", [])
+            for i, st in enumerate(sts):
+                if not (isinstance(st, dict) and st.get("k") == "Decl" and len(st.get("vars", [])) == 1):
+                    continue
+                v = st["vars"][0]
+                if v.get("init") is None or "id" not in v or v.get("static"):
+                    continue
+                vt = (v.get("t") or "").replace("const ", "")
+                if v.get("ref") or vt.endswith("&"):
+                    # a const reference bound to the value a call returns is a value of its own
+                    i0 = ir.unwrap_all_casts(v["init"])
+                    if not ((v.get("t") or "").startswith("const ") and isinstance(i0, dict) and i0.get("k") in ("Call", "MCall") and
+                            not ((i0.get("callee") or {}).get("ret") or "&").endswith("&")):
+                        continue
+                    vt = vt.rstrip("&").strip()
+                hid = v["id"]
+                for j in range(i + 1, len(sts)):
+                    u = unwrap(sts[j])
+                    if not (isinstance(u, dict) and u.get("k") == "Bin" and u.get("op") == "="):
+                        continue
+                    lp, rp = ir.unwrap_all_casts(u.get("lhs")), u.get("rhs")
+                    rr = ir.unwrap_all_casts(rp)
+                    if not (isinstance(lp, dict) and lp.get("k") == "Ref" and lp.get("d") == "local" and isinstance(rr, dict) and
+                            rr.get("k") == "Ref" and rr.get("d") == "local" and rr.get("id") == hid and lp.get("id") != hid):
+                        continue
+                    if (lp.get("t") or "").replace("const ", "") != vt or rr is not unwrap(rp) and \
+                            any(c_.get("k") == "Cast" and c_.get("ck") not in (None, "LValueToRValue", "NoOp") for c_ in walk(rp) if c_ is not rr):
+                        break
+                    xid = lp["id"]
+                    inside = sum(1 for s_ in sts[i:j + 1] for y in walk(s_) if y.get("k") == "Ref" and y.get("d") == "local" and y.get("id") == hid)
+                    x_between = any(y.get("k") == "Ref" and y.get("d") == "local" and y.get("id") == xid for s_ in sts[i:j] for y in walk(s_))
+                    in_lambda = any(y.get("k") == "Lambda" for s_ in sts[i:j + 1] for y in walk(s_))
+                    if inside != uses.get(hid, 0) or x_between or in_lambda:
+                        break
+                    # x must be declared outside this window (it is: it is not mentioned in it) - rewrite
+                    tmpl = copy.deepcopy(lp)
+                    for s_ in sts[i + 1:j]:
+                        for y in walk(s_):
+                            if y.get("k") == "Ref" and y.get("d") == "local" and y.get("id") == hid:
+                                l0 = y.get("l")
+                                y.clear()
+                                y.update(copy.deepcopy(tmpl))
+                                y["l"] = l0
+                    sts[i] = {"k": "Bin", "op": "=", "l": st.get("l"), "t": v.get("t"), "lhs": copy.deepcopy(tmpl), "rhs": v["init"]}
+                    sts[j] = {"k": "Null"}
+                    count += 1
+                    changed = True
+                    break
+                if changed:
+                    break
+            if changed:
+                break
+    return count
+
+
 def merge_adjacent_result(body, facts):
     """`T x = f(..); lhs = x;` with x used nowhere else is `lhs = f(..);` - also when f has effects, provided the target is a
     plain path that neither mentions x nor is touched by evaluating the call (the right operand of an assignment is
@@ -4020,12 +4167,112 @@ def reroll_wrappers(facts):
     return n
 
 
+_RESULT_INTS = ("unsigned long", "long", "unsigned int", "int", "unsigned long long", "long long", "unsigned short", "short", "unsigned char")
+
+
+def erase_flagged_results(facts):
+    """N12: a helper struct {bool flag; integer value} that is only ever built in place from constants, as {true, k} with k != 0
+    or {false, 0}, carries nothing the value alone does not: flag == (value != 0) at every construction, hence everywhere.  Such
+    a result type is erased to its value member: `return {true, 2}` is `return 2`, `r.flag` is `r != 0`, `r.value` is `r`, and
+    functions, parameters and locals of the struct type have the value's type.  (This is the inverse of replacing a `0 means
+    nothing was done` return by a result struct.)  Any other way of making or changing such a struct - a default-constructed
+    local, a store to a member, a non-constant initialiser - leaves the type alone."""
+    done = 0
+    bodies = [f for f in list(facts.functions.values()) if f.get("body_raw") is not None]
+    for qn, rec in list(facts.records.items()):
+        fl = rec.get("fields", [])
+        if rec.get("qn", qn) != qn or len(fl) != 2 or rec.get("methods") or not helper_type(facts, qn):
+            continue
+        bools = [f_ for f_ in fl if f_.get("t") == "bool"]
+        ints = [f_ for f_ in fl if f_.get("t") in _RESULT_INTS]
+        if len(bools) != 1 or len(ints) != 1:
+            continue
+        fi = fl.index(bools[0])
+        vi = 1 - fi
+        flag_n, val_n, val_t = fl[fi]["n"], fl[vi]["n"], fl[vi]["t"]
+
+        def is_r(t):
+            return (t or "").replace("const ", "").replace("&", "").strip() == qn
+        ok, built = True, 0
+        for f in bodies:
+            for n in walk(f["body_raw"]):
+                k = n.get("k")
+                if k == "InitList" and is_r(n.get("t")):
+                    c = n.get("c", [])
+                    fv = ir.const_value(c[fi]) if len(c) == 2 else None
+                    vv = ir.const_value(c[vi]) if len(c) == 2 else None
+                    if fv is None or vv is None or isinstance(vv, str) or bool(fv) != (vv != 0):
+                        ok = False
+                    built += 1
+                elif k == "Construct" and is_r(n.get("t")) and not (n.get("copymove") and len(n.get("args", [])) == 1):
+                    ok = False
+                elif k == "Decl" and any(is_r(v.get("t")) and v.get("init") is None for v in n.get("vars", [])):
+                    ok = False
+                elif k == "Bin" and (n.get("op") or "").endswith("=") and n.get("op") not in ("==", "!=", "<=", ">="):
+                    l_ = ir.unwrap_all_casts(n.get("lhs"))
+                    if isinstance(l_, dict) and (is_r(l_.get("t")) and n.get("op") != "=" or l_.get("k") == "Member" and l_.get("cls") == qn):
+                        ok = False
+                elif k == "Un" and n.get("op") in ("&", "pre++", "post++", "pre--", "post--"):
+                    l_ = ir.unwrap_all_casts(n.get("e"))
+                    if isinstance(l_, dict) and l_.get("k") == "Member" and l_.get("cls") == qn:
+                        ok = False
+        if not ok or not built:
+            continue
+
+        def ty(t):
+            return t.replace(qn, val_t) if isinstance(t, str) and qn in t else t
+
+        def rw(n):
+            if isinstance(n, list):
+                return [rw(x) for x in n]
+            if not isinstance(n, dict):
+                return n
+            k = n.get("k")
+            if k == "InitList" and is_r(n.get("t")):
+                return rw(n["c"][vi])
+            if k == "Construct" and is_r(n.get("t")) and n.get("copymove") and len(n.get("args", [])) == 1:
+                return rw(n["args"][0])
+            if k == "Member" and n.get("cls") == qn and n.get("field"):
+                b = rw(n.get("base"))
+                if n.get("n") == val_n:
+                    return b
+                return {"k": "Bin", "op": "!=", "l": n.get("l"), "t": "bool", "lhs": b,
+                        "rhs": {"k": "Cast", "ck": "IntegralCast", "style": "implicit", "from": "int", "t": val_t, "cv": 0, "l": n.get("l"),
+                                "e": {"k": "Lit", "v": 0, "cv": 0, "t": "int", "l": n.get("l")}}}
+            out = {}
+            for kk, vv in n.items():
+                if kk in ("t", "from", "ret", "tw"):
+                    out[kk] = ty(vv)
+                elif kk == "sig" and isinstance(vv, list):
+                    out[kk] = [ty(x) for x in vv]
+                else:
+                    out[kk] = rw(vv) if isinstance(vv, (dict, list)) else vv
+            return out
+        for f in bodies:
+            f["body_raw"] = rw(f["body_raw"])
+            if f.get("body") is not None:
+                f["body"] = f["body_raw"]
+            f["ret"] = ty(f.get("ret"))
+            if f.get("sig"):
+                f["sig"] = [ty(x) for x in f["sig"]]
+            for pp in f.get("params", []) or []:
+                pp["t"] = ty(pp.get("t"))
+                if "tw" in pp:
+                    pp["tw"] = ty(pp["tw"])
+        facts.erased_results = getattr(facts, "erased_results", {})
+        facts.erased_results[qn] = "%s == (%s != 0) at all %d constructions" % (flag_n, val_n, built)
+        done += 1
+    return done
+
+
 def normalise(facts, do_inline=True, do_propagate=True):
     inl = Inliner(facts)
     for f in facts.functions.values():
         if f.get("body") is not None and "body_raw" not in f:
             f["body_raw"] = f["body"]
     rerolled = reroll_wrappers(facts) if do_inline else 0
+    if do_inline:
+        erase_flagged_results(facts)
     stats = {"inlined_calls": 0, "propagated_uses": 0, "helpers_absorbed": [], "rerolled": rerolled}
     if do_inline:
         for f in list(facts.functions.values()):
@@ -4087,6 +4334,12 @@ def normalise(facts, do_inline=True, do_propagate=True):
                     if not nf_:
                         break
                     stats["stores_split"] = stats.get("stores_split", 0) + split_stores(f["body"], facts)
+                    _tidy(f["body"])
+                ns_ = sink_refined_stores(f["body"], facts)
+                if ns_:
+                    stats["stores_sunk"] = stats.get("stores_sunk", 0) + ns_
+                    stats["copies_coalesced"] = stats.get("copies_coalesced", 0) + coalesce_copies(f["body"], facts)
+                    stats["decl_merged"] += merge_decl_with_first_store(f["body"])
                     _tidy(f["body"])
                 stats["propagated_uses"] += propagate(f["body"], facts, memo)
                 stats["results_merged"] = stats.get("results_merged", 0) + merge_adjacent_result(f["body"], facts)
